@@ -237,6 +237,7 @@ class RpcMultiNode(RpcNode):
 
     def request(self, method: str, path: str, **kwargs) -> requests.Response:
         assert self._next_i < len(self.nodes)
-        res = self.nodes[self._next_i].request(method, path, **kwargs)
-        self._next_i = (self._next_i + 1) % len(self.nodes)
-        return res
+        try:
+            return self.nodes[self._next_i].request(method, path, **kwargs)
+        finally:
+            self._next_i = (self._next_i + 1) % len(self.nodes)
